@@ -44,7 +44,7 @@ theorem solve_wrap (w : Wrap) (a : SolveArgs) (ctx : TxCtx) (ms : Bytes) (base :
         | .ok items =>
           match pushAll (wrapPushes w ms items) with
           | .error e => .error e
-          | .ok sc => .ok (sc, if w.witness then some (items.filterMap id ++ [ms]) else none) := by
+          | .ok sc => .ok (sc, if w.witness then some (items ++ [some ms]) else none) := by
   cases w with
   | bare => exact solve_bare a ctx ms base hb script witness hsh hv
   | p2sh =>
